@@ -1,11 +1,14 @@
 package v2proto
 
 import (
+	"regexp"
 	"strings"
 
 	"github.com/onosproject/onos-config/verifharness/internal/fw"
 	"github.com/onosproject/onos-config/verifharness/internal/rng"
 )
+
+var attRe = regexp.MustCompile(` att=\d+`)
 
 func mk(id, rule string, p Profile, quick, thorough int, mon func(fw.Case, []string) []string) *fw.Prop {
 	return &fw.Prop{
@@ -18,7 +21,9 @@ func mk(id, rule string, p Profile, quick, thorough int, mon func(fw.Case, []str
 				strings.HasPrefix(line, "v2.drain") || p.Twice
 		},
 		RealOnly: func(line string) bool { return strings.HasPrefix(line, "v2.drain") },
-		Sigs:     map[string]func(fw.Case, []string, string) bool{"dirtyValueHistory": dirtySig},
+		// `att=N` (southbound attempts) is an observation of the real run for the monitors only
+		Match: func(line, realOut, twinOut string) bool { return attRe.ReplaceAllString(realOut, "") == twinOut },
+		Sigs:  map[string]func(fw.Case, []string, string) bool{"dirtyValueHistory": dirtySig},
 	}
 }
 
@@ -68,7 +73,7 @@ var C10 = mk("C10",
 		"monitor: terms never decrease and grow by one per assignment, the master is a live relation or none, every southbound request carries the current term over the master's connection and changes are sent only after re-synchronisation in that term. Non-trivial = at least one write; distinct = distinct script.",
 	master, 120, 4000, monitorC10)
 
-var refuse = Profile{Targets: 2, Sets: 5, Faults: false, Verdicts: false, DevErrors: true, Injections: false,
+var refuse = Profile{Targets: 2, Sets: 5, Faults: false, Verdicts: false, DevErrors: true, Injections: true,
 	Rollbacks: false, Serializable: false, Persistent: false, Deletes: true, MaxSteps: 150, DevBias: true, StartConn: true}
 
 // C11p is the protocol part of C11 (the tables are checked by props/c11): registered under the id C11P and
